@@ -69,6 +69,8 @@ def script_text(df, ver, rule, alias=None):
                 rest = ' '.join(shquote(rel(a)) for a in o['args'][2:])
                 lines.append('    case "$(rd %s)" in *"(%s@user.1()"*) ;; *) redo-ifchange %s; vjit ;; esac'
                              % (shquote(rel(o['args'][0])), o['args'][1], rest))
+            elif op == 'mkdirp':
+                lines.append('    mkdir -p "$(dirname "$1")"')
             elif op == 'ifcreate':
                 lines.append('    redo-ifcreate %s' % args)
             elif op == 'watch':
